@@ -201,7 +201,8 @@ def run_case(spec):
   ce = np.asarray(cum['estimate'], dtype=float)
   cl = np.asarray(cum['lower'], dtype=float)
   cu = np.asarray(cum['upper'], dtype=float)
-  btol = rt * 10 * np.abs(ref.scale * tq) + at
+  rt_sigma = 200 * 2.2e-16 * float(np.abs(y_pre).max()) / ref.sigma      # near-perfect fits: see C06
+  btol = max(rt * 10, rt_sigma) * np.abs(ref.scale * tq) + at
   if not np.allclose(ce, ref.loc, rtol=rt, atol=at):
     k = int(np.argmax(np.abs(ce - ref.loc)))
     mech = 'cumulative-estimate-last' if k == len(ce) - 1 else 'cumulative-estimate'
